@@ -51,7 +51,10 @@ META = {
             "history stream: one kernel/corrector object through 4-9 calls with dtype, batch rank/extents (incl. 0), d, p, grad mode "
             "and memory layout (contiguous, transposed, strided, slice of a buffer, expanded, R-is-J alias, in-place update of the "
             "tensors of the previous call) all varying; select: 3 steps per optimiser with targets, parameters and model constants "
-            "updated in place between steps.",
+            "updated in place between steps. PASS 3: ctor stream (every kernel x parameters on both sides of each documented constructor "
+            "bound x dtype -> Spec.ctorOk / Spec.construct); Tolerant with a/|b| in {50(1+2^-40), 51, 64, 200, 700} and u on both sides of "
+            "softplus' threshold 50 against the code-level model tolerantC; every optimiser step additionally against c09.step = the model's "
+            "own lossTotal / stepJtR (selection glue, all residual tensors, flat layout inside the model).",
     "trusted": ["torch autograd of the kernel's forward (rho', rho'') is an external contract: the model uses closed forms of "
                 "rho', rho'' that are *proved* (HasDerivAt) to be the derivatives of the modelled forward; the fast/triggs "
                 "streams compare the real autograd-based outputs against them on every run",
@@ -396,6 +399,11 @@ def kernel_inputs(case):
     n = int(math.prod(case["shape"]))
     s0 = own_scale(spec)
     eps = common.EPS[dtn]
+    if case.get("usweep"):
+        # Tolerant: u = (x - a)/b on both sides of softplus' threshold 50, geometrically, up to u(0) = a/|b|
+        a_, b_ = spec["p"][0], spec["p"][1]
+        us = [a_ / abs(b_), 0.0, 25.0, 49.0, 50.0, 51.0, 60.0, 100.0, 300.0] + [50.0 * (1 + sg * 2.0 ** -k) for k in range(1, 40) for sg in (1, -1)]
+        return torch.tensor([max(0.0, a_ - abs(b_) * u) for u in us if u <= a_ / abs(b_)], dtype=DT[dtn])
     if case.get("linsweep"):
         return torch.tensor(lin_sweep(spec), dtype=DT[dtn])
     if case.get("logsweep"):
@@ -450,6 +458,8 @@ def check_kernel(ctx: Ctx, case, kobj=None):
     if tuple(y.shape) != tuple(x.shape) or y.dtype != x.dtype:
         ctx.fail(case, f"kernel-shape: {spec['kind']} returned shape {tuple(y.shape)} dtype {y.dtype} for input {tuple(x.shape)} {x.dtype}")
         return None
+    if case.get("outside_domain"):
+        return x, y          # a/|b| > 50: outside the property's quantifier — only model (= code, softplus branch) vs implementation
     if not kernel_value_oracle(ctx, case, spec, dtn, x, y):
         return None
     return x, y
@@ -1242,6 +1252,12 @@ def select_step_lines(case, lk, sc, Rs, Ms, shapes):
         if lk[j] != "-":
             lines.append("c09.lossone " + spec_wire(sel_spec(lk[j], case["kspecs"])) + f" {shapes[j][0]} {shapes[j][1]} "
                          + common.wire_list(Rs[j].flatten().double().tolist()))
+    # the whole step inside the model: kernel / corrector normalisation, selection by index, RobustModel.loss over all residual
+    # tensors (lossTotal) and the stacked J'^T R' (stepJtR) — one line, last reply
+    lines.append(f"c09.step {nres} {arg_tokens(case['karg'])} {arg_tokens(case['carg'])} {len(case['kspecs'])} "
+                 + " ".join(spec_wire(sp) for sp in case["kspecs"]) + f" {case['p']} "
+                 + " ".join(f"{shapes[j][0]} {shapes[j][1]} " + common.wire_list(Rs[j].flatten().double().tolist()) + " "
+                            + common.wire_list(Ms[j].flatten().double().tolist()) for j in range(nres)))
     return lines, kinds
 
 
@@ -1443,8 +1459,8 @@ def check_select(ctx: Ctx, case, pre=None):
                 if not okc:
                     broken = True
                     break
-        else:
-            # LM hands b = -J'^T R' to the solver
+        # stacked J'^T R' from the per-residual model outputs (and its per-item conditioned scale)
+        if True:
             tot = np.zeros(case["p"], dtype=np.longdouble)
             sca = np.zeros(case["p"], dtype=np.longdouble)
             for j in range(nres):
@@ -1457,9 +1473,31 @@ def check_select(ctx: Ctx, case, pre=None):
                 ampj = np.repeat(np.array([item_amp(kinds[j]["spec"], float(x)) for x in Rs[j].double().square().sum(-1).flatten().tolist()],
                                           dtype=np.longdouble), d)
                 sca += float(wk[j]) * (np.abs(Jm).T @ (ampj * np.abs(Rm)))
-            got = -ld(b)[:, 0]
-            tol = TOLK * eps * sca + 16 * TINY[dtn]
-            if (np.abs(got - tot) > tol).any():
+            # LM hands b = -J'^T R' to the solver; GN hands (J', -R') (weights already removed row-wise above)
+            got = -ld(b)[:, 0] if case["opt"] == "LM" else ld(A).T @ (-ld(b)[:, 0]) * 1
+            if case["opt"] == "GN":
+                tot_cmp = sum((np.array(reply_floats(reps[j])[shapes[j][0] * shapes[j][1]:shapes[j][0] * shapes[j][1] * (1 + case["p"])], dtype=np.longdouble)
+                               .reshape(shapes[j][0] * shapes[j][1], case["p"]).T
+                               @ np.array(reply_floats(reps[j])[:shapes[j][0] * shapes[j][1]], dtype=np.longdouble)) for j in range(nres))
+            else:
+                tot_cmp = tot
+            tol = TOLK * eps * sca * (1 if case["opt"] == "LM" else 2) + 16 * TINY[dtn]
+            # the model's own end-to-end value (c09.step = lossTotal, stepJtR with the model's selection glue)
+            st_, stoks = common.parse_reply(reps[-1])
+            if st_ != "ok":
+                mismatch(ctx, "step", {**clean(case), "step": step}, f"model step reply {reps[-1][:60]} but the implementation ran")
+                broken = True
+            else:
+                sv = [wf(t_) for t_ in stoks]
+                ctx.count(f"select.step-vs-model.{case['opt']}")
+                unweighted = all(w == 1.0 for w in wk)
+                if unweighted or case["opt"] == "GN":
+                    if (np.abs(got - np.array(sv[1:], dtype=np.longdouble)) > tol).any():
+                        mismatch(ctx, "step", {**clean(case), "step": step}, f"{case['opt']}: J'^T R' handed to the solver {got.astype(float).tolist()} != "
+                                 f"model stepJtR {sv[1:]} (kernel={case['karg']}, corrector={case['carg']})")
+                        broken = True
+                step_loss_model = sv[0]
+            if case["opt"] == "LM" and (np.abs(got - tot_cmp) > tol).any():
                 mismatch(ctx, "select", {**clean(case), "step": step}, f"LM right-hand side {got.astype(float).tolist()} != model J'^T R' "
                                                                        f"{tot.astype(float).tolist()} (selection {sc})")
                 broken = True
@@ -1476,6 +1514,9 @@ def check_select(ctx: Ctx, case, pre=None):
                 ri += 1
         if abs(mp.mpf(float(loss)) - want) > TOLK * eps * wsc * 2 + 16 * TINY[dtn]:
             ctx.disagree("select", {**clean(case), "step": step}, f"loss {float(loss)!r} != model {float(want)!r} (loss kernels {lk})")
+            broken = True
+        if st_ == "ok" and "-" not in lk and (case["opt"] == "GN" or step == 0) and abs(float(loss) - step_loss_model) > TOLK * eps * wsc * 2 + 16 * TINY[dtn]:
+            mismatch(ctx, "step", {**clean(case), "step": step}, f"loss {float(loss)!r} != model lossTotal {step_loss_model!r}")
             broken = True
         # --- oracle: the direction handed to the solver is the gradient of the loss the optimiser reports
         if consistent and all(w == 1.0 for w in wk):
@@ -1598,6 +1639,57 @@ def run_select(ctx: Ctx, cases):
                        None if c is None else (c[0], len(c[1]) if c[0] == "many" else 1), case["tuple"], case["data_seed"] % 3), True)
         ctx.count(f"select.{case['opt']}.kernel-{'none' if k is None else k[0]}.corrector-{'none' if c is None else c[0]}")
         ctx.sample(case, cap=10)
+
+
+# ----------------------------------------------------------------------------- constructor stream (pass 3)
+# The constructors' documented parameter checks (delta > 0; a > 0, b < 0; 0 < delta <= 1 for Scale; none for Arctan) against the
+# model's `Spec.ctorOk` / `Spec.construct` (c09.construct): rejected <=> `err ctor`; an accepted kernel is then called.
+
+CTOR_PARAMS = {
+    "huber": [[1.0], [0.0], [-1.0], [-5e-324], [5e-324], [1e-300], [3.0]],
+    "pseudohuber": [[1.0], [0.0], [-0.5], [2.0]],
+    "cauchy": [[1.0], [0.0], [-2.0], [0.25]],
+    "softlone": [[1.0], [0.0], [-1e-9], [1.5]],
+    "arctan": [[1.0], [-2.0], [0.5]],                       # no constructor check: a negative delta is accepted (delta^2 is used)
+    "tolerant": [[1.0, -1.0], [0.0, -1.0], [-1.0, -1.0], [1.0, 0.0], [1.0, 1.0], [2.0, -0.5], [5e-324, -5e-324]],
+    "scale": [[1.0], [0.0], [-0.5], [1.0 + 2.0 ** -52], [2.0], [0.5], [5e-324]],
+}
+
+
+def run_ctor(ctx: Ctx):
+    K = ppk()
+    lines, metas = [], []
+    for kind in BUILTIN:
+        for pr in CTOR_PARAMS[kind]:
+            for dtn in ("float64", "float32"):
+                pp_ = [float(v) for v in pr] + [0.0] * (3 - len(pr))
+                case = {"stream": "ctor", "spec": {"kind": kind, "p": pp_}, "dtype": dtn}
+                x = torch.tensor([0.0, 0.5, 2.0], dtype=DT[dtn])
+                try:
+                    kobj = K.Tolerant(pp_[0], pp_[1]) if kind == "tolerant" else getattr(K, CLS[kind])(pp_[0])
+                    raised = None
+                except Exception as e:
+                    raised = type(e).__name__
+                    kobj = None
+                valid = {"tolerant": pp_[0] > 0 and pp_[1] < 0, "scale": 0 < pp_[0] <= 1, "arctan": True}.get(kind, pp_[0] > 0)
+                if raised is None and not valid:
+                    ctx.fail(case, f"ctor-accepts: {CLS[kind]}({pr}) is constructed although the documented parameter range excludes it")
+                if raised is not None and valid:
+                    ctx.fail(case, f"ctor-rejects: {CLS[kind]}({pr}) raises {raised} for parameters inside the documented range")
+                y = None
+                if kobj is not None:
+                    y = guard(ctx, case, lambda: kobj(x))
+                ctx.note_case(("ctor", kind, tuple(pr), dtn), True)
+                ctx.count(f"ctor.{kind}.{'rejected' if raised else 'accepted'}")
+                lines.append("c09.construct " + spec_wire(case["spec"]) + " " + common.wire_list(x.double().tolist()))
+                metas.append((case, raised, x, y))
+    reps = ctx.driver.run(lines)
+    for rep, (case, raised, x, y) in zip(reps, metas):
+        st, toks = common.parse_reply(rep)
+        if (st == "err" and toks == "ctor") != (raised is not None):
+            ctx.disagree("ctor", case, f"{case['spec']['kind']}{case['spec']['p']}: implementation {'raises ' + raised if raised else 'constructs'}, model {rep[:20]}")
+        elif st == "ok" and y is not None and bool(torch.isfinite(y).all()):
+            compare_kernel(ctx, case, x, y, rep)
 
 
 # ----------------------------------------------------------------------------- history stream (hardening pass)
@@ -2242,6 +2334,11 @@ def corner_corpus():
                 calls.append(call)
         H.append({"stream": "history", "which": which, "spec": {"kind": kind, "p": [float(v) for v in CORPUS_SPECS[kind][1]]},
                   "calls": calls, "data_seed": 4242})
+    # Tolerant beyond a/|b| = 50 (softplus' linear branch z > 50 is taken): the model follows the code's exact guard
+    for ratio in (50.0 * (1 + 2.0 ** -40), 51.0, 64.0, 200.0, 700.0):
+        for dtn in ("float32", "float64"):
+            spec = {"kind": "tolerant", "p": [1.0, -1.0 / ratio, 0.0]}
+            K.append({"stream": "kernel", "spec": spec, "dtype": dtn, "shape": [1], "data_seed": 2, "usweep": True, "outside_domain": True})
     # grad mode x call syntax x argument type matrix (values must not depend on any of them), special sizes N = d = p,
     # a failing call in the middle, outputs overwritten by the caller
     for which, spec in (("kernel", {"kind": "huber", "p": [2.0, 0.0, 0.0], "int": True}), ("kernel", {"kind": "huber", "p": [3.0, 0.0, 0.0], "int": True, "kwargs": True}),
@@ -2311,6 +2408,7 @@ def run(ctx: Ctx):
     # 1. deterministic corner corpus (seed-independent), first
     K, Ng, Cr, H, S = corner_corpus()
     ctx.count("corpus.cases", len(K) + len(Ng) + len(Cr) + len(H) + len(S))
+    run_ctor(ctx)
     run_kernel(ctx, K)
     run_negative(ctx, Ng)
     run_corrector(ctx, Cr)
@@ -2378,6 +2476,8 @@ def replay(ctx: Ctx, case) -> bool:
             print("  implementation R':", res[2].flatten().tolist()[:8])
     elif st == "select":
         check_select(ctx, c)
+    elif st == "ctor":
+        run_ctor(ctx)
     elif st == "history":
         c.pop("call", None)
         lines, metas = [], []
